@@ -709,9 +709,6 @@ var $structType = (pkgPath, fields) => {
             this.$val = this;
             for (var i = 0; i < fields.length; i++) {
                 var f = fields[i];
-                if (f.name == '_') {
-                    continue;
-                }
                 var arg = args[i];
                 this[f.prop] = arg !== undefined ? arg : f.typ.zero();
             }
